@@ -105,6 +105,8 @@ class Taint:
             return self._is_domain_expr(e.body) or self._is_domain_expr(e.orelse)
         if isinstance(e, ast.Call):
             d = dotted(e.func) or ""
+            if isinstance(e.func, ast.Attribute) and e.func.attr in ("values", "items") and not e.args:
+                return self._is_domain_expr(e.func.value)      # the streams held by a tainted container
             if d.split(".")[-1] in ("map", "filter", "iter", "enumerate", "zip", "chain") and e.args:
                 return any(self._is_domain_expr(a) for a in e.args[1:] + ([e.args[0]] if d.split(".")[-1] in ("iter", "enumerate", "zip", "chain") else []))
         if isinstance(e, ast.GeneratorExp):
